@@ -146,6 +146,9 @@ Proof.
     destruct (Ho c ltac:(lia) Hcc) as (Ac & Bc & Cc).
     cbn [full_paren core_expr wpx strip_spans strip_paren andb].
     rewrite A1, Aa, Ab, Ac, !B1, Ba, Bb, Bc, C1, Ca, Cb, Cc. repeat split; reflexivity.
+  - (* ESuperIndex *)
+    destruct (IH e ltac:(lia) Hc) as (A & B & C).
+    cbn [full_paren core_expr wpx strip_spans strip_paren andb]. rewrite A, !B, C. repeat split; reflexivity.
   - (* ECall *)
     apply andb_true_iff in Hc as [Hcf Hca].
     destruct (IH e ltac:(lia) Hcf) as (A1 & B1 & C1).
